@@ -197,7 +197,7 @@ def split_cases(text):
     order = []
     cur = None
     for line in text.split("\n"):
-        if not line:
+        if not line or line.startswith("#"):
             continue
         if line.startswith("case "):
             cur = line[5:].strip()
